@@ -52,6 +52,13 @@ check("C06", "model_checking",
       "Trusted: the reference USE semantics in checks/c06.py; bounds: <= 3 library modules, one entity per kind and flavour. One genuine defect (same entity twice in one ONLY list) is a listed known finding.",
       "bounded-exhaustive enumeration incl. all file-order schedules, against a reference implementation", "DESIGN.md 5/C06")
 
+check("C07", "model_checking",
+      "For each of 10 reference-slot kinds x referencing scope (module, module procedure, internal procedure) x every subset of placements of a "
+      "same-named declaration x letter-case variant x sibling order, plus submodule chains (depth 1 and 2) x every file order: the object stored in "
+      "the slot by the real correlate() is identified by a marker and compared with a reference resolver implementing Fortran's scoping rules.",
+      "Trusted: the reference resolver (innermost scope, then host chain with local-or-use-associated names per level) and the program skeleton in checks/c07.py. Quick tier bounds subsets to size <= 3; thorough enumerates all subsets.",
+      "bounded-exhaustive enumeration of name-placement subsets against a reference scoping resolver", "DESIGN.md 5/C07")
+
 ALL = [f"C{i:02d}" for i in range(1, 21)]
 PENDING_REASON = "check not built yet in this round (planned: see DESIGN.md section 5); will be claimed once its exhaustive check exists"
 
